@@ -446,7 +446,7 @@ func typeCheckModule(repo string) {
 	fset := token.NewFileSet()
 	imp := &srcImporter{repo: repo, fset: fset, std: importer.ForCompiler(fset, "source", nil), pkgs: map[string]*types.Package{},
 		files: map[string][]*ast.File{},
-		info:  &types.Info{Types: map[ast.Expr]types.TypeAndValue{}, Uses: map[*ast.Ident]types.Object{}, Defs: map[*ast.Ident]types.Object{}}}
+		info:  &types.Info{Types: map[ast.Expr]types.TypeAndValue{}, Uses: map[*ast.Ident]types.Object{}, Defs: map[*ast.Ident]types.Object{}, Selections: map[*ast.SelectorExpr]*types.Selection{}}}
 	root, err := imp.check(modPath, repo)
 	if err != nil {
 		fatal("type-check of the module failed: %v", err)
